@@ -469,9 +469,11 @@ theorem collect_ok {t : Nat} (st : String) (p : Path) (out : Node) (pre : List S
       have hcand := child?_ok ht hc
       have htarget := nodeAt_ok pre ho htg
       split
-      · have r := ih (updateAt (insertChild _) pre out) pre template (insertAt_ok _ hcand pre out ho) ht
-        simp only [EvsOk_append]
-        exact ⟨r.1, setItemFull_ok st htarget hcand, r.2⟩
+      · split
+        · exact ih out pre template ho ht
+        · have r := ih (updateAt (insertChild _) pre out) pre template (insertAt_ok _ hcand pre out ho) ht
+          simp only [EvsOk_append]
+          exact ⟨r.1, setItemFull_ok st htarget hcand, r.2⟩
       · split
         · exact ih out (pre ++ [name]) _ ho hcand
         · split
